@@ -4,17 +4,10 @@ import json, os
 HERE = os.path.dirname(os.path.dirname(os.path.abspath(__file__)))
 ALL = [f"C{i:02d}" for i in range(1, 21)]
 
-CHECKS = {
- "C16": dict(
-   technique="Lean 4 proof (induction over the gap-filling loop; sort/perm lemmas) + exact differential correspondence",
-   text="fix_counts_spec/fix_counts_keys/fix_counts_twice are proved in Lean for every n>=1, every non-empty table of distinct "
-        "n-bit keys and every value type, about a statement-by-statement executable model (QG/Model/FixCounts.lean) that returns "
-        "IndexError where the Python would; the model is tied to the code on every run by an exact differential over all key subsets "
-        "for n<=3 (n<=4 thorough) and random tables up to n=10/12, and an independent oracle evaluates the statement on every case.",
-   design="3 (C16)",
-   note="Lean kernel + propext/Classical.choice/Quot.sound; hand-written model trusted as far as the correspondence exercises it; "
-        "Python str ordering, int(s,2), format/zfill as modelled; the Qiskit-order clause is decided with C03."),
-}
+CHECKS = {}
+for _f in sorted(os.listdir(os.path.join(HERE, "harness", "props"))):
+    if _f.endswith(".meta.json"):
+        CHECKS[_f[:3].upper()] = json.load(open(os.path.join(HERE, "harness", "props", _f)))
 
 NOT_YET = "check not built yet in this session (see DESIGN.md section 7 for the build order); no claim is made"
 
@@ -37,7 +30,7 @@ def main():
         })
     man = {
         "version": 1,
-        "setup_cmd": "cd lean && lake build",
+        "setup_cmd": "/venv/bin/python harness/regen.py && cd lean && lake build",
         "hooks": {
             "guard": "QUANTUM_GATES_VERIF",
             "enable": "no source hooks are needed: the checks observe the code from outside (injected gate sets, monkey-patched "
